@@ -634,6 +634,11 @@ def gen_C12(rng, tier):
     for k in range(n):
         prog, regs, anynan = rand_program(rng, rng.randint(1, 3))
         extra = []
+        if rng.random() < 0.3:       # a result with a history (queried, used, layered in place) is still minimal and comparable
+            r = rng.choice(regs)
+            warmup(rng, prog, r, [F(0), F(1), F(2), F(3)])
+            extra += [C.read(r, "frame"), C.bin_(90, "add", C.reg(r), C.cst(0)), C.query(r, "identical", a=C.reg(90)),
+                      C.query(90, "identical", a=C.reg(r))]
         for r in regs[-2:]:
             extra += [C.query(r, "nsteps"), C.query(r, "points"), C.query(r, "identical", a=C.reg(r)), C.query(r, "bool")]
         r1, r2 = rng.choice(regs), rng.choice(regs)
@@ -677,6 +682,8 @@ def gen_C12(rng, tier):
         ident = rng.choice(IDENTITIES)
         P = [leaf_stmt(0, f, c), leaf_stmt(1, g, c), leaf_stmt(2, h, c)]
         R = C.reg
+        if rng.random() < 0.25:
+            warmup(rng, P, rng.choice([0, 1]), leaf_points(f, g[0]))
         if ident == "add_comm":
             P += [C.bin_(3, "add", R(0), R(1)), C.bin_(4, "add", R(1), R(0))]
         elif ident == "mul_comm":
@@ -985,6 +992,10 @@ def gen_C15(rng, tier):
         P.append(C.agg(4, rng.choice(GFUNCS), [1, 0]))
         P.append(C.query(0, "cov", b=1, lo=F(0), hi=F(4)))
         P.append(C.query(2, "corr", b=0, lo=F(0), hi=F(4)))
+        # windows on which the operands are constant (zero variance): a mismatch must still be reported
+        P.append(C.query(0, "corr", b=1, lo=F(5), hi=F(9)))
+        P.append(C.query(1, "corr", b=2, lo=F(-4), hi=F(0)))
+        P.append(C.query(0, "cov", b=2, lo=F(5), hi=F(9)))
         P.append(C.resample(5, 0, "mean", rng.choice(["left", "right"]), [(F(0), F(2)), (F(2), F(4))]))
         fl = flav(rng, True)
         fl["coll"] = rng.choice(COLLS)
@@ -1119,7 +1130,7 @@ def gen_C19(rng, tier):
         hi = rng.choice([p for p in pts if p > lo] + [pts[-1] + 2])
         if rng.random() < 0.1:
             lo, hi = None, None
-        prog = [leaf_stmt(0, f, c), leaf_stmt(1, g, c)]
+        prog = [leaf_stmt(0, f, c), leaf_stmt(1, g, c if rng.random() < 0.92 else rng.choice(SIDES))]
         lag = rng.choice([F(0), F(0), F(1), F(-1), F(1, 2)])
         clip = rng.choice(["pre", "post"])
         kind = rng.choice(["cov", "corr"])
